@@ -1,14 +1,24 @@
-import Gv.Proofs.BagOps
-import Gv.Spec.Bag
+import Gv.Proofs.BagNames
 /-!
 # C01 — containers stay rectangular, uniquely named and index-consistent
 
 Property theorems about the implementation-shaped model `Gv.Model.Bag` (ordered rows with pointer
 ids + a separate name index + cached alignment length, `lean/Gv/Model/Bag.lean`), for operation
-histories of **any** length.
+histories of **any** length:
+
+* `step_inv` / `run_inv` — the weak representation invariant, also after caller-made name collisions;
+* `step_rect` / `run_rect` / `rows_have_reported_length` — rectangularity (and the kernel-checked
+  violation `translate_three_frames_not_rect` of the one excluded case);
+* `step_names_nodup` / `run_names_nodup` — names stay pairwise distinct unless the caller edits names;
+* `step_refines` / `run_refines` — refinement to the plain-list reference model `Gv.Spec.stepOp`, for
+  all 24 operations of the history language;
+* `lookup_paths_agree`, `idByName_spec`, `byName_found_iff`, `obs_*` — the access paths agree;
+* `add_wrong_length_rejected` — a sequence of the wrong length is rejected, state unchanged.
+
+Helper developments: `Gv/Proofs/Bag*.lean`.
 -/
 namespace Gv.Props.C01
-open Gv Gv.Model Gv.Proofs.BagInv
+open Gv Gv.Model Gv.Proofs.BagInv Gv.Proofs.BagAbs
 
 /-- side condition on an operation's *arguments* in a given state: a shuffle is resolved to a genuine
 permutation of the current positions (this is what `rand.Perm`-style shuffling produces) -/
@@ -238,11 +248,322 @@ theorem add_wrong_length_error_of_new_name (b : Bag) (ha : b.isAlign = true) (n 
   unfold addSeq addSeqAs
   simp [hnew, ha, hl, hs]
 
+
+/-! ## rectangularity: the cached length is the length of every row, `-1` iff there is no row -/
+
+/-- side conditions under which rectangularity is claimed after a step: a shuffle is a genuine
+permutation of the positions; `Translate` is asked for one frame, or for the three frames of an
+alignment whose length is `≡ 2 (mod 3)` (known finding `align-translate-3frames-ragged`: for any other
+length the three frames have different numbers of codons, see `translate_three_frames_not_rect`);
+`Replace` and `Concat` did not return an error (both end with a scan of the row lengths and *report* a
+ragged result). -/
+def RectOK (b : Bag) : Op → Prop
+  | .permute perm => IsPerm perm b.rows.length
+  | .translate ph _ => TranslateRectOK b ph
+  | .replace old new => (stepOp b (.replace old new)).2 ≠ "err"
+  | .concat rows => (stepOp b (.concat rows)).2 ≠ "err"
+  | _ => True
+
+def HistRectOK : Bag → List Op → Prop
+  | _, [] => True
+  | b, op :: t => RectOK b op ∧ HistRectOK (stepOp b op).1 t
+
+/-- **One step keeps an alignment rectangular** — every operation of the history language, arbitrary
+arguments, whatever the outcome (success or error) except for the two operations that report the
+raggedness themselves. -/
+theorem step_rect (b : Bag) (h : Rect b) (op : Op) (hw : RectOK b op) : Rect (stepOp b op).1 := by
+  cases op with
+  | add n s => exact rect_addSeq h n s
+  | ignore p => exact h.congr rfl rfl rfl
+  | clear => exact rect_clear b
+  | append rows =>
+    simp only [stepOp]
+    split
+    · exact h
+    · split
+      · exact h
+      · exact rect_addAllStop _ h
+  | concat rows =>
+    simp only [RectOK, stepOp] at hw
+    simp only [stepOp]
+    split
+    · exact h
+    · split
+      · exact h
+      · rename_i h1 h2
+        simp only [h1, h2] at hw
+        apply rect_concat _ _ _ h
+        revert hw
+        cases (concat _ _ _ b).2 <;> simp
+  | rename m => exact rect_renameWith _ h
+  | appendId id right => exact rect_appendIdentifier id right h
+  | cleanNames => exact rect_renameWith _ h
+  | trimNames size => exact rect_trimNames size h
+  | trimAuto cur => exact rect_trimNamesAuto cur h
+  | sort => exact rect_sortRows h
+  | permute perm => exact rect_permuteRows perm h hw
+  | filter mn mx => exact rect_filterLength mn mx h
+  | dedup g => exact rect_deduplicate g h
+  | rmSeqs c num den ic ig iN =>
+    simp only [stepOp]
+    split
+    · exact h
+    · split
+      · exact h
+      · rename_i r hr
+        exact rect_removeCharacterSeqs _ _ _ _ _ _ r hr
+  | translate ph code => exact rect_translateBag ph code h hw
+  | clone =>
+    simp only [stepOp]
+    split
+    · exact h
+    · exact rect_clone b
+  | sample nb perm =>
+    simp only [stepOp]
+    split
+    · exact h
+    · rename_i s hs
+      exact rect_sample nb perm b s hs
+  | toUpper => exact rect_mapSeqs _ (by simp) h
+  | toLower => exact rect_mapSeqs _ (by simp) h
+  | replace old new =>
+    simp only [RectOK, stepOp] at hw
+    apply rect_replaceBag old new h
+    revert hw
+    cases (replaceBag old new b).2 <;> simp
+  | setChar i j c => exact rect_setSequenceChar i j c h
+  | trimSeqs n fs =>
+    simp only [stepOp]
+    split
+    · exact h
+    · split
+      · exact h
+      · rename_i r hr
+        exact rect_trimSequences n fs h r hr
+  | autoAlpha => exact h.congr rfl rfl rfl
+
+/-- **Every reachable alignment is rectangular**: induction over histories of any length. -/
+theorem run_rect (ops : List Op) (b : Bag) (h : Rect b) (hw : HistRectOK b ops) : Rect (finalState b ops) := by
+  induction ops generalizing b with
+  | nil => exact h
+  | cons op t ih =>
+    simp only [finalState, List.foldl_cons]
+    exact ih _ (step_rect b h op hw.1) hw.2
+
+theorem rect_of_empty_align (alphabet : Nat) : Rect (newAlign alphabet) := (good_newAlign alphabet).rect
+
+/-- every row of an alignment built by any history has exactly the reported length, and the reported
+length is `-1` exactly when there is no row -/
+theorem rows_have_reported_length (alphabet : Nat) (ops : List Op) (hw : HistRectOK (newAlign alphabet) ops) :
+    (∀ r ∈ (finalState (newAlign alphabet) ops).rows,
+        (r.seq.length : Int) = (finalState (newAlign alphabet) ops).length) ∧
+    ((finalState (newAlign alphabet) ops).length = -1 ↔ (finalState (newAlign alphabet) ops).rows = []) := by
+  have h := run_rect ops _ (rect_of_empty_align alphabet) hw
+  have ha : (finalState (newAlign alphabet) ops).isAlign = true := by
+    have : ∀ (ops : List Op) (b : Bag), (finalState b ops).isAlign = b.isAlign := by
+      intro ops
+      induction ops with
+      | nil => intro b; rfl
+      | cons op t ih =>
+        intro b
+        simp only [finalState, List.foldl_cons]
+        exact (ih _).trans (isAlign_stepOp b op)
+    rw [this]; rfl
+  exact ⟨h.rows_len ha, h.length_eq_neg_one_iff ha⟩
+
+/-- why `L ≡ 2 (mod 3)`: the frames 0, 1, 2 of `L ≥ 2` columns have `L/3`, `(L-1)/3`, `(L-2)/3` codons, all equal
+exactly in that case -/
+theorem three_frames_same_count_iff (L : Nat) (h : 2 ≤ L) :
+    (L / 3 = (L - 1) / 3 ∧ (L - 1) / 3 = (L - 2) / 3) ↔ L % 3 = 2 := by omega
+
+/-- the excluded case is a genuine violation (kernel-checked): the three frames of a 6-column
+alignment have 2, 1 and 1 codons; `Translate` reports success and the cached length is 2 -/
+def raggedStart : Bag := finalState (newAlign 1) [.add "a" [65, 67, 71, 84, 65, 67], .add "b" [71, 71, 71, 84, 84, 84]]
+
+set_option maxRecDepth 100000 in
+theorem translate_three_frames_not_rect :
+    Rect raggedStart ∧ (stepOp raggedStart (.translate (-1) 0)).2 = "ok" ∧
+    ¬ Rect (stepOp raggedStart (.translate (-1) 0)).1 := by
+  refine ⟨⟨by decide, by decide⟩, by decide, ?_⟩
+  intro h
+  have := h.rows_len (by decide) ⟨3, "a_1", [82]⟩ (by decide)
+  revert this
+  decide
+
+
+
+/-! ## names stay pairwise distinct unless the caller renames two rows to the same name -/
+
+/-- **One step keeps the names pairwise distinct**, for every operation other than the caller's own
+name edits (`NameEdit`: `Rename`, `AppendSeqIdentifier`, `CleanNames`, `TrimNames`, `TrimNamesAuto`):
+insertion under every duplicate-name policy either ignores the row or renames it to a name not in use;
+every rebuild goes through insertion; `Concat` only adds rows whose name is absent. -/
+theorem step_names_nodup (b : Bag) (hi : Inv b) (hr : Rect b) (hn : NamesNodup b) (op : Op)
+    (hne : ¬ NameEdit op) (hw : OpWF b op) : NamesNodup (stepOp b op).1 :=
+  (ni_stepOp ⟨hi, hn⟩ hr op hne (fun perm e => by subst e; exact hw)).nodup
+
+/-- … hence for every history without a name edit, from any state with distinct names (in particular
+from the empty containers) -/
+theorem run_names_nodup (ops : List Op) (b : Bag) (hi : Inv b) (hr : Rect b) (hn : NamesNodup b)
+    (hne : ∀ op ∈ ops, ¬ NameEdit op) (hw : HistWF b ops) (hrw : HistRectOK b ops) :
+    NamesNodup (finalState b ops) := by
+  induction ops generalizing b with
+  | nil => exact hn
+  | cons op t ih =>
+    simp only [finalState, List.foldl_cons]
+    exact ih _ (step_inv b hi op hw.1) (step_rect b hr op hrw.1)
+      (step_names_nodup b hi hr hn op (hne op (by simp)) hw.1)
+      (fun o ho => hne o (List.mem_cons_of_mem _ ho)) hw.2 hrw.2
+
+/-! ## refinement: the Go-shaped container is the plain list of (name, sequence) pairs
+
+`abs` forgets ids, the name index, the allocation counter and the cached length.  `Good` is the strong
+invariant (`Inv`, the index points to the *first* row of each name, `Rect`, an alignment's alphabet is
+never `BOTH`).  `Spec.stepOp` is the reference model on plain lists (`Gv/Spec/Bag.lean`); it returns
+`none` for the state where the documented meaning leaves it unspecified (a rebuild by re-insertion, a
+shuffle or a sample after the caller made two rows share a name; an operation that reported an error and
+may leave anything behind; the three-frame translation of an alignment whose frames differ in length). -/
+
+/-- side conditions on the arguments: the draws of `ShuffleSequences` / `Sample` are resolved to a
+genuine permutation of the current positions (what `rand.Perm` produces) -/
+def OpWFR (b : Bag) : Op → Prop
+  | .permute perm => IsPerm perm b.rows.length
+  | .sample _ perm => IsPerm perm b.rows.length
+  | _ => True
+
+/-- **One step refines the reference model** — every one of the 24 operations of the history
+language (`add`, `ignore`, `clear`, `append`, `concat`, `rename`, `appendId`, `cleanNames`, `trimNames`,
+`trimAuto`, `sort`, `permute`, `filter`, `dedup`, `rmSeqs`, `translate`, `clone`, `sample`, `toUpper`,
+`toLower`, `replace`, `setChar`, `trimSeqs`, `autoAlpha`), arbitrary arguments: whenever the reference
+specifies the outcome of the operation on the observable content, the Go-shaped model yields exactly
+that content (names, row order, residues, policy, alphabet, kind) and that status, and the strong
+invariant holds again. -/
+theorem step_refines (b : Bag) (h : Good b) (op : Op) (hw : OpWFR b op)
+    (s' : Spec.SBag) (st : String) (hs : Spec.stepOp (abs b) op = (some s', st)) :
+    abs (stepOp b op).1 = s' ∧ (stepOp b op).2 = st ∧ Good (stepOp b op).1 := by
+  have : Refines b op := by
+    cases op with
+    | add n s => exact ref_add h n s
+    | ignore p => exact ref_ignore h p
+    | clear => exact ref_clear h
+    | append rows => exact ref_append h rows
+    | concat rows => exact ref_concat h rows
+    | rename m => exact ref_rename h m
+    | appendId id right => exact ref_appendId h id right
+    | cleanNames => exact ref_cleanNames h
+    | trimNames size => exact ref_trimNames h size
+    | trimAuto cur => exact ref_trimAuto h cur
+    | sort => exact ref_sort h
+    | permute perm => exact ref_permute h perm hw
+    | filter mn mx => exact ref_filter h mn mx
+    | dedup g => exact ref_dedup h g
+    | rmSeqs c num den ic ig iN => exact ref_rmSeqs h c num den ic ig iN
+    | translate ph code => exact ref_translate h ph code
+    | clone => exact ref_clone h
+    | sample nb perm => exact ref_sample h nb perm hw
+    | toUpper => exact ref_toUpper h
+    | toLower => exact ref_toLower h
+    | replace old new => exact ref_replace h old new
+    | setChar i j c => exact ref_setChar h i j c
+    | trimSeqs n fs => exact ref_trimSeqs h n fs
+    | autoAlpha => exact ref_autoAlpha h
+  exact this s' st hs
+
+/-- the reference model run over a history: final content and the status of every step; `none` as
+soon as one step is left unspecified -/
+def specRun : Spec.SBag → List Op → Option (Spec.SBag × List String)
+  | s, [] => some (s, [])
+  | s, op :: t =>
+    match Spec.stepOp s op with
+    | (some s', st) => (specRun s' t).map fun r => (r.1, st :: r.2)
+    | (none, _) => none
+
+def HistWFR : Bag → List Op → Prop
+  | _, [] => True
+  | b, op :: t => OpWFR b op ∧ HistWFR (stepOp b op).1 t
+
+/-- **Refinement for histories of any length** (induction): as far as the reference model specifies
+the history, the Go-shaped model shows the same content after it and returned the same status at every
+step; the strong invariant holds at the end. -/
+theorem run_refines (ops : List Op) (b : Bag) (h : Good b) (hw : HistWFR b ops)
+    (s' : Spec.SBag) (sts : List String) (hs : specRun (abs b) ops = some (s', sts)) :
+    abs (finalState b ops) = s' ∧ (runOps b ops).map (·.2) = sts ∧ Good (finalState b ops) := by
+  induction ops generalizing b sts with
+  | nil =>
+    simp only [specRun, Option.some.injEq, Prod.mk.injEq] at hs
+    exact ⟨hs.1, by simpa [runOps] using hs.2, h⟩
+  | cons op t ih =>
+    simp only [specRun] at hs
+    cases hstep : Spec.stepOp (abs b) op with
+    | mk o st =>
+      cases o with
+      | none => simp [hstep] at hs
+      | some s1 =>
+        simp only [hstep, Option.map_eq_some_iff, Prod.mk.injEq] at hs
+        obtain ⟨⟨r1, r2⟩, hr, e1, e2⟩ := hs
+        simp only at e1 e2
+        subst e1
+        obtain ⟨g1, g2, g3⟩ := step_refines b h op hw.1 s1 st hstep
+        obtain ⟨k1, k2, k3⟩ := ih (stepOp b op).1 g3 hw.2 r2
+          (by rw [g1, hr])
+        simp only [finalState, List.foldl_cons] at k1 k3 ⊢
+        refine ⟨k1, ?_, k3⟩
+        simp only [runOps, List.map_cons, g2, k2]
+        exact e2
+
+/-- `Good` holds for the empty containers every history starts from -/
+theorem good_of_empty_bag (alphabet : Nat) : Good (newBag alphabet) := good_newBag alphabet
+theorem good_of_empty_align (alphabet : Nat) : Good (newAlign alphabet) := good_newAlign alphabet
+
+/-! ### what `abs` preserves: every observation of the harness is a function of the abstraction -/
+
+/-- lookup by name through the index = the reference's "first row of that name" -/
+theorem obs_byName (b : Bag) (h : Good b) (n : String) :
+    (getByName b n).map (fun r => (r.name, r.seq)) = Spec.firstNamed n (abs b).rows := getByName_abs h n
+
+/-- the linear-scan path = the position of the first row of that name in the abstraction -/
+theorem obs_idByName (b : Bag) (n : String) :
+    idByName b n = match (abs b).rows.findIdx? (fun r => r.1 == n) with
+      | some i => (i : Int)
+      | none => -1 := by
+  rw [idByName_spec]
+  simp [abs, pairs, List.findIdx?_map, Function.comp_def]
+
+/-- the cached length of an alignment = the reference's length (first row, `-1` when empty) -/
+theorem obs_length (b : Bag) (h : Good b) (ha : b.isAlign = true) : b.length = (abs b).length :=
+  (h.rect.abs_length ha).symm
+
 /-! ## non-vacuity -/
 
 example : Inv (finalState (newAlign 1) [.add "a" [65, 67], .add "a" [71, 84], .rename [("a", "z"), ("a_0001", "z")], .sort, .dedup false]) :=
   run_inv _ _ (inv_newAlign 1) (by simp [HistWF, OpWF])
 
 example : (finalState (newAlign 1) [.add "a" [65, 67], .add "a" [71, 84]]).rows.map (·.name) = ["a", "a_0001"] := by decide
+
+-- a history with a renamed duplicate, a rename, a filter, a deduplication, a clone, a concatenation (one row
+-- present in both, one only on the right) and a translation: the reference specifies every step, so the
+-- refinement theorem applies to it and yields the equality of the final contents
+def demoHist : List Op :=
+  [.add "a" [65, 67, 71], .add "a" [71, 84, 84], .add "c" [65, 67, 71], .rename [("c", "b")],
+   .filter 1 5, .dedup false, .clone, .concat [("a", [71, 71, 71]), ("z", [84, 84, 84])], .translate 0 0]
+
+set_option maxRecDepth 100000 in
+example : ∃ s' sts, specRun (abs (newAlign 1)) demoHist = some (s', sts) ∧
+    abs (finalState (newAlign 1) demoHist) = s' ∧ (runOps (newAlign 1) demoHist).map (·.2) = sts := by
+  have hsome : (specRun (abs (newAlign 1)) demoHist).isSome = true := by decide
+  cases h : specRun (abs (newAlign 1)) demoHist with
+  | none => rw [h] at hsome; cases hsome
+  | some r =>
+    have := run_refines demoHist _ (good_of_empty_align 1) (by simp [demoHist, HistWFR, OpWFR]) r.1 r.2 h
+    exact ⟨r.1, r.2, rfl, this.1, this.2.1⟩
+
+-- adding the same name three times under the default policy: the names stay distinct
+example : NamesNodup (finalState (newAlign 1) [.add "a" [65], .add "a" [67], .add "a" [71], .dedup false]) :=
+  run_names_nodup _ _ (inv_newAlign 1) (rect_of_empty_align 1) (by simp [NamesNodup, newAlign])
+    (by simp [NameEdit]) (by simp [HistWF, OpWF]) (by simp [HistRectOK, RectOK])
+
+-- three frames of a 5-column alignment (5 ≡ 2 mod 3) followed by a filter: within the rectangularity theorem
+example : HistRectOK (newAlign 1) [.add "a" [65, 67, 71, 84, 65], .translate (-1) 0, .filter 1 5] :=
+  ⟨trivial, Or.inr (by decide), trivial, trivial⟩
 
 end Gv.Props.C01
